@@ -100,6 +100,298 @@ Definition m_size t p : mres :=
   | None => mkM (RErr ENotFound) t O O
   end.
 
+(* ---- Rm / CleanDir (files.go:583-631, 708-752): recursive, with explicit fuel ---- *)
+
+(* backend Remove: unlink, or rmdir of an EMPTY directory (None = ENOTEMPTY) *)
+Definition b_remove (t : tree) (p : path) : option tree :=
+  match children t p with
+  | [] => Some (filter (fun e => negb (path_eqb p (fst e))) t)
+  | _ => None
+  end.
+
+(* IsEmpty as a boolean (the path exists) *)
+Definition m_empty_b (t : tree) (p : path) : bool :=
+  match b_stat t p with
+  | Some (F []) => true
+  | Some (F _) => false
+  | _ => match b_readdirnames t p with [] => true | _ => false end
+  end.
+
+(* the loop of CleanDir over the names Ls returned: removeFileWithContext(dir, f) for each; the first error stops it *)
+Fixpoint rm_children (rm : tree -> path -> option (res * tree * nat)) (p : path) (ns : list name) (t0 : tree) (h : nat)
+  : option (res * tree * nat) :=
+  match ns with
+  | [] => Some (ROk, t0, h)
+  | n :: ns' => match rm t0 (p ++ [n]) with
+                | None => None
+                | Some (ROk, t1, h1) => rm_children rm p ns' t1 (h + h1)%nat
+                | Some (r, t1, h1) => Some (r, t1, (h + h1)%nat)
+                end
+  end.
+
+(* RemoveWithContext: missing -> nil; IsDir; IsEmpty; non-empty directory -> CleanDir (Exists, IsEmpty, Ls, loop); IsEmpty again
+   (still non-empty -> nil, something was excluded); backend Remove.  Result, tree, handles opened (= closed on every path:
+   every Open in Exists / IsEmpty / Ls is paired with its Close before the next statement).  None = out of fuel. *)
+Fixpoint m_rm (fuel : nat) (t : tree) (p : path) {struct fuel} : option (res * tree * nat) :=
+  match fuel with
+  | O => None
+  | S f =>
+      let '(e, h0) := m_exists t p in
+      if negb e then Some (ROk, t, h0)
+      else
+        let isdir := match b_stat t p with Some D => true | _ => false end in
+        let cleaned :=
+          if isdir && negb (m_empty_b t p)
+          then rm_children (m_rm f) p (b_readdirnames t p) t (h0 + 4)%nat
+          else Some (ROk, t, (h0 + 2)%nat) in
+        match cleaned with
+        | None => None
+        | Some (ROk, t1, h1) =>
+            if isdir && negb (m_empty_b t1 p) then Some (ROk, t1, (h1 + 1)%nat)
+            else match b_remove t1 p with
+                 | Some t2 => Some (ROk, t2, (h1 + 1)%nat)
+                 | None => Some (RErr EOther, t1, (h1 + 1)%nat)
+                 end
+        | Some x => Some x
+        end
+  end.
+
+(* CleanDir: "" or missing -> nil; empty -> nil; Ls; loop *)
+Definition m_clean (fuel : nat) (t : tree) (p : path) : option (res * tree * nat) :=
+  let '(e, h0) := m_exists t p in
+  if negb e then Some (ROk, t, h0)
+  else if m_empty_b t p then Some (ROk, t, (h0 + 1)%nat)
+  else rm_children (m_rm fuel) p (b_readdirnames t p) t (h0 + 3)%nat.
+
+(* fuel that always suffices (ProofsVfsRm.v): one more than the number of entries *)
+Definition rm_fuel (t : tree) : nat := S (length t).
+
+Definition lift3 (x : option (res * tree * nat)) : option mres :=
+  match x with Some (r, t, h) => Some (mkM r t h h) | None => None end.
+
+(* ---- Copy (files.go CopyBetweenFSWithExclusionRegexes, copyFolder..., copyFile..., with the C06 fixes) ---- *)
+
+(* copyFile: GenericOpen(src); defer Close; CreateFile(dst); defer Close; copy; Close both.  Two handles. *)
+Definition m_copy_file (t : tree) (s dst : path) : res * tree * nat :=
+  match b_stat t s with
+  | Some (F c) => match b_create t dst with
+                  | inl t1 => (ROk, set_file t1 dst c, 2%nat)
+                  | inr BNotFound => (RErr ENotFound, t, 1%nat)
+                  | inr BOther => (RErr EOther, t, 1%nat)
+                  end
+  | Some D => (RErr EOther, t, 1%nat)
+  | None => (RErr ENotFound, t, O)
+  end.
+
+(* the loop of copyFolder over the names of the source: Copy(src/name, dst) for each; the first error stops it *)
+Fixpoint copy_children (cp : tree -> path -> option (res * tree * nat)) (s : path) (ns : list name) (t0 : tree) (h : nat)
+  : option (res * tree * nat) :=
+  match ns with
+  | [] => Some (ROk, t0, h)
+  | n :: ns' => match cp t0 (s ++ [n]) with
+                | None => None
+                | Some (ROk, t1, h1) => copy_children cp s ns' t1 (h + h1)%nat
+                | Some (r, t1, h1) => Some (r, t1, (h + h1)%nat)
+                end
+  end.
+
+Definition is_dir_b (t : tree) (p : path) : bool := match b_stat t p with Some D => true | _ => false end.
+Definition m_mkdir3 (t : tree) (p : path) : res * tree * nat := let m := m_mkdir t p in (m_r m, m_t m, m_opened m).
+
+(* CopyBetweenFSWithExclusionRegexes(src, dest) — src == dest; Exists(src); IsDir(src); Exists(dest), IsDir(dest);
+   a directory is not copied into itself nor over one of its parents; creation of the destination (the shape table);
+   dst; copyFolder (MkDir(dst), IsEmpty(src), Ls(src), loop) or copyFile (same file: nothing; over a directory: refused). *)
+Fixpoint m_copy (fuel : nat) (t : tree) (s : path) (str : bool) (d : path) (dtr : bool) {struct fuel}
+  : option (res * tree * nat) :=
+  match fuel with
+  | O => None
+  | S f =>
+      if path_eqb s d && Bool.eqb str dtr then Some (ROk, t, O)
+      else
+        let '(es, h1) := m_exists t s in
+        if negb es then Some (RErr ENotFound, t, h1)
+        else
+          let src_dir := is_dir_b t s in
+          let '(ed, h2) := m_exists t d in
+          let dest_dir0 := ed && is_dir_b t d in
+          let target := if dest_dir0 then d ++ [base s] else d in
+          let h := (h1 + h1 + h2 + h2)%nat in
+          if src_dir && (is_prefix s target || is_prefix target s) then Some (RErr EInvalid, t, h)
+          else
+            let '(r1, t1, hm) :=
+              if ed then (ROk, t, O)
+              else if src_dir || dtr then m_mkdir3 t d else m_mkdir3 t (parent d) in
+            match r1 with
+            | ROk =>
+                let dest_dir := if ed then dest_dir0 else src_dir || dtr in
+                let dst := if negb (src_dir && negb ed) && dest_dir then d ++ [base s] else d in
+                if src_dir then
+                  let '(r2, t2, hm2) := m_mkdir3 t1 dst in
+                  match r2 with
+                  | ROk =>
+                      if m_empty_b t2 s then Some (ROk, t2, (h + hm + hm2 + 1)%nat)
+                      else copy_children (fun t0 c => m_copy f t0 c false dst false) s (b_readdirnames t2 s) t2 (h + hm + hm2 + 2)%nat
+                  | r => Some (r, t2, (h + hm + hm2)%nat)
+                  end
+                else if path_eqb s dst then Some (ROk, t1, (h + hm)%nat)
+                else
+                  let '(e3, h3) := m_exists t1 dst in
+                  if e3 && is_dir_b t1 dst then Some (RErr EInvalid, t1, (h + hm + h3 + h3)%nat)
+                  else let '(r3, t3, h4) := m_copy_file t1 s dst in Some (r3, t3, (h + hm + h3 + h4)%nat)
+            | r => Some (r, t1, (h + hm)%nat)
+            end
+  end.
+
+(* CopyToFile (:1499-1536) *)
+Definition m_copytofile (fuel : nat) (t : tree) (s : path) (str : bool) (d : path) (dtr : bool) : option (res * tree * nat) :=
+  let '(f1, h1) := m_isfile t s in
+  if negb f1 then Some (RErr EInvalid, t, h1)
+  else
+    let '(ed, h2) := m_exists t d in
+    if ed then
+      let '(f2, h3) := m_isfile t d in
+      if negb f2 then Some (RErr EInvalid, t, (h1 + h2 + h3)%nat)
+      else match m_copy fuel t s str d dtr with Some (r, t', h) => Some (r, t', (h1 + h2 + h3 + h)%nat) | None => None end
+    else if dtr then Some (RErr EInvalid, t, (h1 + h2)%nat)
+    else match m_copy fuel t s str d dtr with Some (r, t', h) => Some (r, t', (h1 + h2 + h)%nat) | None => None end.
+
+(* CopyToDirectory (:1543-1563): MkDir(destDirectory); Copy(src, destDirectory) *)
+Definition m_copytodir (fuel : nat) (t : tree) (a : parg) (d : path) (dtr : bool) : option (res * tree * nat) :=
+  let '(r1, t1, h1) := m_mkdir3 t d in
+  match r1 with
+  | ROk => match a with
+           | PEmpty => Some (RErr ENotFound, t1, h1)             (* Exists("") is false *)
+           | P s str => match m_copy fuel t1 s str d dtr with Some (r, t', h) => Some (r, t', (h1 + h)%nat) | None => None end
+           end
+  | r => Some (r, t1, h1)
+  end.
+
+(* ---- Move (MoveWithContext with the C06 fixes; move; moveFolder; moveFile) ---- *)
+
+(* backend Rename, POSIX: onto nothing; a file onto a file; a directory onto an EMPTY directory; otherwise refused *)
+Definition b_rename (t : tree) (s d : path) : option tree :=
+  match lookup t s with
+  | None => None
+  | Some e =>
+      if negb (is_dir t (parent d)) || is_prefix s d then None
+      else match lookup t d, e with
+           | None, _ => Some (rename_sub t s d)
+           | Some (F _), F c => Some (set_file (remove_sub t s) d c)
+           | Some D, D => match children t d with [] => Some (rename_sub (remove_sub t d) s d) | _ => None end
+           | _, _ => None
+           end
+  end.
+
+Fixpoint move_children (mv : tree -> path -> path -> option (res * tree * nat)) (s d : path) (ns : list name) (t0 : tree) (h : nat)
+  : option (res * tree * nat) :=
+  match ns with
+  | [] => Some (ROk, t0, h)
+  | n :: ns' => match mv t0 (s ++ [n]) (d ++ [n]) with
+                | None => None
+                | Some (ROk, t1, h1) => move_children mv s d ns' t1 (h + h1)%nat
+                | Some (r, t1, h1) => Some (r, t1, (h + h1)%nat)
+                end
+  end.
+
+(* move(src, dest): MkDir(Dir(dest)); Rename; if the rename is refused (e.g. across devices): a directory is moved entry by
+   entry (moveFolder: MkDir(dest), IsEmpty, Ls, loop, then Remove(src)), a file is copied then removed (moveFile). *)
+Fixpoint m_move_raw (fuel : nat) (t : tree) (s d : path) {struct fuel} : option (res * tree * nat) :=
+  match fuel with
+  | O => None
+  | S f =>
+      if path_eqb s d then Some (ROk, t, O)
+      else
+        let '(r1, t1, h1) := m_mkdir3 t (parent d) in
+        match r1 with
+        | ROk =>
+            match b_rename t1 s d with
+            | Some t2 => Some (ROk, t2, h1)
+            | None =>
+                let '(es, h2) := m_exists t1 s in
+                if negb es then Some (RErr ENotFound, t1, (h1 + h2)%nat)
+                else if is_dir_b t1 s then
+                  let '(r2, t2, h3) := m_mkdir3 t1 d in
+                  match r2 with
+                  | ROk =>
+                      let looped :=
+                        if m_empty_b t2 s then Some (ROk, t2, (h1 + h2 + h3 + 1)%nat)
+                        else move_children (m_move_raw f) s d (b_readdirnames t2 s) t2 (h1 + h2 + h3 + 2)%nat in
+                      match looped with
+                      | Some (ROk, t3, h4) => match m_rm (rm_fuel t3) t3 s with
+                                              | Some (r, t4, h5) => Some (r, t4, (h4 + h5)%nat)
+                                              | None => None
+                                              end
+                      | x => x
+                      end
+                  | r => Some (r, t2, (h1 + h2 + h3)%nat)
+                  end
+                else
+                  match m_copy (S f) t1 s false d false with
+                  | Some (ROk, t2, h3) => match b_remove t2 s with
+                                          | Some t3 => Some (ROk, t3, (h1 + h2 + h3)%nat)
+                                          | None => Some (RErr EOther, t2, (h1 + h2 + h3)%nat)
+                                          end
+                  | x => x
+                  end
+            end
+        | r => Some (r, t1, h1)
+        end
+  end.
+
+(* MoveWithContext: src == dest; Exists(src); IsDir(src); the destination resolved as mv does; onto itself: nothing;
+   into itself: invalid; a directory over a non-empty directory: 'already exists'; move. *)
+Definition m_move (fuel : nat) (t : tree) (s : path) (str : bool) (d : path) (dtr : bool) : option (res * tree * nat) :=
+  if path_eqb s d && Bool.eqb str dtr then Some (ROk, t, O)
+  else
+    let '(es, h1) := m_exists t s in
+    if negb es then Some (RErr ENotFound, t, h1)
+    else
+      let src_dir := is_dir_b t s in
+      let '(ed, h2) := m_exists t d in
+      let dest_dir := if ed then is_dir_b t d else dtr in
+      let target := if dest_dir then d ++ [base s] else d in
+      let h := (h1 + h1 + h2 + h2)%nat in
+      if path_eqb s target then Some (ROk, t, h)
+      else if is_prefix s target then Some (RErr EInvalid, t, h)
+      else
+        let '(et, h3) := m_exists t target in
+        if src_dir && et && is_dir_b t target && negb (m_empty_b t target) then Some (RErr EExists, t, (h + h3 + h3 + 1)%nat)
+        else match m_move_raw fuel t s target with
+             | Some (r, t', h4) => Some (r, t', (h + h3 + h4)%nat)
+             | None => None
+             end.
+
+(* ---- listings ---- *)
+
+(* SubDirectories (files.go:1772-1810): afero.ReadDir; the entries that are directories and are not hidden *)
+Definition m_subdirs (t : tree) (p : path) : mres :=
+  match b_stat t p with
+  | Some D => mkM (RNames (map (fun n => [n]) (filter (fun n => is_dir_b t (p ++ [n]) && negb (hidden n)) (b_readdirnames t p)))) t 1 1
+  | Some (F _) => mkM (RErr EOther) t 1 1
+  | None => mkM (RErr ENotFound) t O O
+  end.
+
+(* ListDirTree (files.go:1841-1873): Ls(dir) (not a directory: 'invalid'); every name is appended and, when it is a directory,
+   descended into.  Depth-first, with explicit fuel; handles: one per Ls, one per IsDir of a directory. *)
+Fixpoint m_tree_names (fuel : nat) (t : tree) (p : path) {struct fuel} : option (list path) :=
+  match fuel with
+  | O => None
+  | S f =>
+      (fix go (ns : list name) : option (list path) :=
+         match ns with
+         | [] => Some []
+         | n :: ns' =>
+             match (if is_dir_b t (p ++ [n]) then m_tree_names f t (p ++ [n]) else Some []), go ns' with
+             | Some l1, Some l2 => Some ((p ++ [n]) :: l1 ++ l2)
+             | _, _ => None
+             end
+         end) (b_readdirnames t p)
+  end.
+
+Definition m_tree (t : tree) (p : path) : option res :=
+  if is_dir_b t p then match m_tree_names (rm_fuel t) t p with Some l => Some (RNames l) | None => None end
+  else Some (RErr EInvalid).
+
 (* the calls M covers *)
 Definition m_exec (t : tree) (c : call) : option mres :=
   match c with
@@ -113,15 +405,40 @@ Definition m_exec (t : tree) (c : call) : option mres :=
   | Read (P p _) => Some (m_read t p)
   | Ls (P p _) => Some (m_ls t p)
   | Size (P p _) => Some (m_size t p)
+  | Rm (P (a :: p) _) => lift3 (m_rm (rm_fuel t) t (a :: p))
+  | Clean (P p _) => lift3 (m_clean (rm_fuel t) t p)
+  | SubDirs (P p _) => Some (m_subdirs t p)
+  | Move (P (n :: s) str) (P d dtr) => lift3 (m_move (rm_fuel t) t (n :: s) str d dtr)
+  | CopyToFile (P s str) (P d dtr) => lift3 (m_copytofile (rm_fuel t) t s str d dtr)
+  (* Copy / CopyToDirectory of a FILE (or of a missing source): the destination-shape table; the recursive copy of a
+     directory is in [m_exec_all] below: modelled and compared with the implementation, its refinement is not proved *)
+  | Copy (P s str) (P d dtr) => if is_dir_b t s then None else lift3 (m_copy (rm_fuel t) t s str d dtr)
+  | CopyToDir (P s str) (P d dtr) =>
+      if is_dir_b (m_t (m_mkdir t d)) s then None
+      else lift3 (m_copytodir (rm_fuel (m_t (m_mkdir t d))) t (P s str) d dtr)
   | _ => None
   end.
 
-(* well-formed trees: every entry's ancestors are present (as the dumps of a real file system are) *)
-Definition wf (t : tree) : Prop :=
-  forall p e, find_entry t p = Some e -> forall q, In q (prefixes p) -> exists_ t q = true.
+(* everything M models, including the recursive directory copy *)
+Definition m_exec_all (t : tree) (c : call) : option mres :=
+  match c with
+  | Copy (P s str) (P d dtr) => lift3 (m_copy (rm_fuel t) t s str d dtr)
+  | CopyToDir a (P d dtr) => lift3 (m_copytodir (rm_fuel (m_t (m_mkdir t d))) t a d dtr)
+  | _ => m_exec t c
+  end.
 
-(* boolean version of [wf], evaluated on every observed dump *)
-Definition wf_b (t : tree) : bool := forallb (fun e => forallb (exists_ t) (prefixes (fst e))) t.
+(* a program on M: [None] as soon as a call is outside M's coverage; results, final tree, handles opened and closed *)
+Fixpoint m_run (t : tree) (cs : list call) : option (list res * tree * nat * nat) :=
+  match cs with
+  | [] => Some ([], t, O, O)
+  | c :: cs' => match m_exec t c with
+                | None => None
+                | Some m => match m_run (m_t m) cs' with
+                            | Some (rs, t', o, cl) => Some (m_r m :: rs, t', (m_opened m + o)%nat, (m_closed m + cl)%nat)
+                            | None => None
+                            end
+                end
+  end.
 
 (* ---- correspondence: R and, for the calls it covers, M against the observations ---- *)
 Fixpoint check_steps_m (t : tree) (l : list stepobs) : bool :=
@@ -131,7 +448,12 @@ Fixpoint check_steps_m (t : tree) (l : list stepobs) : bool :=
       let t_obs := match s_after s with Some x => x | None => t end in
       wf_b t_obs &&
       (if s_unconstrained s then true
-       else match m_exec t (s_call s) with
+       else match s_call s with
+            | TreeL (P p _) => match m_tree t p with Some r => res_eqb r (s_res s) | None => false end
+            | _ => true
+            end) &&
+      (if s_unconstrained s then true
+       else match m_exec_all t (s_call s) with
             | None => true
             | Some m => res_eqb (m_r m) (s_res s) && tree_eqb (m_t m) t_obs && Nat.eqb (m_opened m) (m_closed m)
             end) && check_steps_m t_obs l'
